@@ -55,20 +55,18 @@ Definition canonical_name (nm : names_map) (e : expr) : string :=
   | None => match lookup_nm e nm with Some n => n | None => EmptyString end
   end.
 
-(** the two writer repairs prepared under patches/ (both [false] = the shipped writer):
+(** the writer repairs prepared under patches/ (all flags [false] = the shipped writer):
     [w_no_array_alias] = patches/0008 (no trailing alias line for an array, since the alias line is a
-    zero-bit extension), [w_input_labels] = patches/0010 (a bad/constraint label is not named
+    zero-bit extension; goes with the reader patch 0009 = [Fix2]), [w_input_labels] = patches/0010 (a bad/constraint label is not named
     after an input it refers to directly, so that the input keeps its name on its declaration) *)
 Record writer_variant : Type :=
   { w_no_array_alias : bool; w_input_labels : bool; w_last_label : bool; w_symbol_labels : bool }.
 Definition writer_cur : writer_variant :=
   {| w_no_array_alias := false; w_input_labels := false; w_last_label := false; w_symbol_labels := false |}.
-Definition writer_fix : writer_variant :=
-  {| w_no_array_alias := true; w_input_labels := true; w_last_label := false; w_symbol_labels := false |}.
 (** [w_last_label] = patches/0011: only the LAST bad/constraint label that refers to an expression directly
     is named after it (the reader keeps the last one; an earlier label with the same base takes the
     name away from the alias line) *)
-Definition writer_fix2 : writer_variant :=
+Definition writer_fix : writer_variant :=
   {| w_no_array_alias := true; w_input_labels := true; w_last_label := true; w_symbol_labels := false |}.
 (** experiment (not proposed as a patch, see patches/BTOR2-NAMES-README.txt): no label is named after any symbol *)
 Definition writer_exp : writer_variant :=
